@@ -172,35 +172,14 @@ theorem C04App_dispatch_delivers_head (a : ACfg) (s : St) (v : Nat) (q : List Na
       (({ s with imm2 := false, q2 := q, gone2 := s.gone2 ++ [(v, true)] } : St).emit2 (.msgEnter v)) v := by
     simp [step, runnable2, hD, stepRun2, hp, stepDisp2, hq, hb, hv, hqu]
   have i1 : InvF a (({ s with imm2 := false, q2 := q, gone2 := s.gone2 ++ [(v, true)] } : St).emit2 (.msgEnter v)) :=
-    InvF.deliver_head (s := { s with imm2 := false }) (InvF.of_fcore (s' := { s with imm2 := false }) rfl hi) hqu hv rfl
+    InvF.deliver_head (s := { s with imm2 := false }) (InvF.of_fcore (s := s) (s' := { s with imm2 := false }) rfl hi) hqu hv rfl
   have i2 := dispHandle2_InvF i1 v
   rw [← e] at i2
   have hg : (step a s (.run .D2)).gone2 = s.gone2 ++ [(v, true)] ∧ (step a s (.run .D2)).q2 = q := by
     rw [e]
-    unfold dispHandle2
-    split
-    · exact ⟨rfl, rfl⟩
-    · exact ⟨rfl, rfl⟩
-    · exact ⟨rfl, rfl⟩
-    · split
-      · exact ⟨rfl, rfl⟩
-      · unfold startClose innerStep
-        obtain ⟨_, f2, f3, _⟩ := feed_fields a
-          (entered ((Sess.step (innerCfg a) s.inner .callInitiateClose).trace.drop s.inner.trace.length))
-          { (({ s with imm2 := false, q2 := q, gone2 := s.gone2 ++ [(v, true)] } : St).emit2 (.msgEnter v)) with
-            evt := some false, inner := Sess.step (innerCfg a) s.inner .callInitiateClose,
-            tr := (s.tr ++ [.app (.msgEnter v)]) ++
-              ((Sess.step (innerCfg a) s.inner .callInitiateClose).trace.drop s.inner.trace.length).map .inner }
-        have hcore := Sess.step_initiateClose_core (innerCfg a) s.inner
-        simp only [Sess.core, Prod.mk.injEq] at hcore
-        have hd : (Sess.step (innerCfg a) s.inner .callInitiateClose).trace.drop s.inner.trace.length = [] := by
-          rw [hcore.2.2.2]; simp
-        refine ⟨?_, ?_⟩
-        · show (feed a _ _).gone2 = _
-          exact f3
-        · show (feed a _ _).q2 = _
-          rw [f2, hd]; simp [entered]
-    · exact ⟨rfl, rfl⟩
+    obtain ⟨h1, h2⟩ := dispHandle2_q2_gone2 a
+      (({ s with imm2 := false, q2 := q, gone2 := s.gone2 ++ [(v, true)] } : St).emit2 (.msgEnter v)) v
+    exact ⟨h2, h1⟩
   refine ⟨?_, hg.2⟩
   rw [i2.deliv, hi.deliv]
   unfold St.taken2
